@@ -18,6 +18,9 @@ PROFILES = {
     'shipped_sync': lambda rnd: sp.gen_shipped(rnd, dyn='syn'),
     'shipped_sto': lambda rnd: sp.gen_shipped(rnd, dyn='sto'),
     'queue': lambda rnd: sp.gen_script_queue(rnd),
+    'ops': lambda rnd: sp.gen_ops(rnd),
+    'ops_linr': lambda rnd: sp.gen_ops(rnd, lin_r=True),
+    'fixrec': lambda rnd: sp.gen_shipped(rnd, classes=['SIR_FixedRecovery', 'SIS_FixedRecovery']),
     'compete': lambda rnd: sp.gen_shipped(rnd, dyn=rnd.choice(['syn', 'syn', 'sto']), extreme=True,
                                          net=sp.rand_net(rnd, 3, 7, kind=rnd.choice(['star', 'complete', 'er', 'path']))),
 }
